@@ -88,7 +88,18 @@ size_t hook(int id, size_t k, size_t m)
     g_log.push_back({id, k, m});
     if (g_calls == g_bad_at) {
         g_bad_delivered = true;
-        return g_bad_kind == 0 ? m : g_bad_kind == 1 ? m + 1 : SIZE_MAX;
+        // any value of m or more is out of range: the smallest ones, the largest one, and values whose low 32 bits
+        // alone would be a valid index
+        switch (g_bad_kind) {
+        case 0: return m;
+        case 1: return m + 1;
+        case 2: return SIZE_MAX;
+        case 3: return (size_t)1 << 32;
+        case 4: return ((size_t)1 << 32) + k % m;
+        case 5: return (size_t)1 << 63;
+        case 6: return m + ((size_t)1 << 32);
+        default: return ((size_t)3 << 32) + 1 % m;
+        }
     }
     return fn_eval(id, k, m);
 }
@@ -716,7 +727,7 @@ void vf_run(const uint8_t *data, size_t len)
     g_big = prof == PROFILE_BIG;
     if (g_big) { K = 200000; maxlive = 1000000; }
     uint16_t badat = cur.u16();
-    g_bad_kind = cur.u8() % 3;
+    g_bad_kind = cur.u8() % 8;
     g_calls = 0;
     g_bad_at = cx.c17 ? 1 + badat % 400 : 0;
     g_bad_delivered = false;
@@ -730,7 +741,7 @@ void vf_run(const uint8_t *data, size_t len)
     }
     if (tab.empty()) tab.push_back(INS);
     TRACE("header tables=%d keys=%zu maxlive=%zu profile=%d%s", ntab, K, maxlive, prof, cx.c17 ? " (bad hash value armed)" : "");
-    if (cx.c17) TRACE("the %llu-th hash call returns %s", (unsigned long long)g_bad_at, g_bad_kind == 0 ? "m" : g_bad_kind == 1 ? "m+1" : "SIZE_MAX");
+    if (cx.c17) TRACE("the %llu-th hash call returns %s", (unsigned long long)g_bad_at, g_bad_kind == 0 ? "m" : g_bad_kind == 1 ? "m+1" : g_bad_kind == 2 ? "SIZE_MAX" : "a value >= 2^32 whose low word may be a valid index");
     size_t nops = 0;
     bool marked = false;
     auto snapshot = [&]() { g_state.clear(); for (int i = 0; i < ntab; i++) g_state += peek_state(T[i]); };
